@@ -26,7 +26,7 @@ RULE = ("case = one point of a union of complete sub-lattices.  core: method {No
         "no case is trivial")
 RULE_ADDED = ("Added later: reuse (same operator objects after an in-place update of their tensors), the caller's g"
               'rad mode (torch.no_grad(), operands requiring grad), call-order plane in fresh interpreters. Round 4'
-              ': svd of square Hermitian indefinite operators (flag detected / given / matrix-free). Round 7: davidson option max_addition in {1, neig, neig + 2}; svd of the same operator in other units (times 1e-8 / 1e7).')
+              ': svd of square Hermitian indefinite operators (flag detected / given / matrix-free). Round 7: davidson option max_addition in {1, neig, neig + 2} (also on spectrum edge: outermost pair far outside, interior compressed); svd of the same operator in other units (times 1e-8 / 1e7).')
 ASSUMPTIONS = [
     "A = L Q diag(lam) Q^H L^H, M = c L L^H with Q from QR of a fixed generator stream, kappa(L L^H) = 3, c in "
     "[0.75, 1.5] per M batch element: the exact generalised spectrum is lam / c",
@@ -155,6 +155,14 @@ def cases(tier, seed):
                                                              dav={"v_init": v_init, "nguess": extra,
                                                                   "min_eps": min_eps}))
                                         if v_init == "randn" and min_eps == 1e-9:
+                                            if spec == "sep" and n >= 12:
+                                                # spectrum whose outermost pair converges long before the others
+                                                for madd in sorted({1, neig, neig + 2} - ({neig} if extra else set())):
+                                                    out.append(_sym_case("davidson", M, opkind, "-", n, neig, mode,
+                                                                         "edge", "f64",
+                                                                         dav={"v_init": v_init, "nguess": extra,
+                                                                              "min_eps": min_eps,
+                                                                              "max_addition": madd}))
                                             # documented option max_addition (number of new guesses per iteration)
                                             # below, at and above neig: same pairs, same accuracy
                                             for madd in sorted({1, neig, neig + 2} - ({neig} if extra else set())):
